@@ -175,6 +175,24 @@ def kitty_not_popped(evs):
     return [e for e in evs if e.get("ev") != "kpop"]
 
 
+def hyperlink_left_open(evs):
+    """no command closing a hyperlink reaches the terminal (the session opened one)"""
+    if not any(e.get("ev") == "osc8" and e.get("ln") != 0 for e in evs) or not any(e.get("ev") == "osc8" and e.get("ln") == 0 for e in evs):
+        return None
+    return [e for e in evs if not (e.get("ev") == "osc8" and e.get("ln") == 0)]
+
+
+def unicode_core_left_set(evs):
+    """no command resetting mode 2027 reaches a terminal which implements it and had it reset at start (the session set it)"""
+    if 2027 not in (evs[0].get("sup") or []) or 2027 in (evs[0].get("preset") or []):
+        return None
+    on = lambda e: e.get("ev") == "set" and e.get("m") == 2027 and e.get("v") is True
+    off = lambda e: e.get("ev") == "set" and e.get("m") == 2027 and e.get("v") is False
+    if not any(on(e) for e in evs) or not any(off(e) for e in evs):
+        return None
+    return [e for e in evs if not off(e)]
+
+
 # --- Conc (C10) -----------------------------------------------------------------------------------
 
 def conc(field, value):
